@@ -378,7 +378,12 @@ struct Executor {
                 bool ok = true;
                 if (judged(sc)) ok = memcmp(tab[i], sc.fc->src[i].data(), sc.E) == 0;
                 Hash64 ch; ch.bytes(tab[i], sc.E); extra.u64(i); extra.u64(ch.h);
-                if (!ok) viol({pdata}, "data", std::string("wrong-source-symbol:codec=") + cn(sc), "esi " + std::to_string(i) + " after " + kind, &sc);
+                if (!ok) {
+                    std::vector<const char *> props{pdata};
+                    if (rs) props.push_back("C02");                              // "...and returns the original k source symbols"
+                    if (ldpc && sc.finish_called) props.push_back("C03");        // "recovers all k source symbols"
+                    viol(props, "data", std::string("wrong-source-symbol:codec=") + cn(sc), "esi " + std::to_string(i) + " after " + kind, &sc);
+                }
                 if (!sc.got[i] && !sc.avail[i]) { sc.decoded_cnt++; count("source_symbols_decoded"); }
             }
             status_done();
